@@ -22,6 +22,7 @@ def run(rep):
     rep.guard(p1, rep, w)
     rep.guard(p2, rep, w)
     rep.guard(p3, rep, w)
+    rep.guard(p4, rep, w)
     rep.guard(p5, rep, w)
     rep.guard(p6, rep, w)
     rep.guard(p7, rep, w)
@@ -274,6 +275,128 @@ def p3(rep, w):
                       'same cell and panics (BorrowError)' % n2, f.loc(f.blocks[b]['t'].get('sp')))
             else:
                 r.ok(key, sample=(n % 7 == 0))
+
+# ---- P4: no conflicting re-borrow of a heap cell --------------------------------------------------------------------------
+KEYED_MAP_OPS = ('insert', 'remove', 'get', 'get_mut', 'contains_key', 'entry', 'remove_entry', 'get_key_value')
+
+
+def _guard_of(f, t, managed):
+    """(payload ADT, 'mut' | 'shr') if this call hands back a Ref / RefMut of a heap cell (RefCell::borrow* itself or a wrapper
+    such as active_fiber_mut)"""
+    d = t['dst']
+    if d.get('p'):
+        return None
+    cr = f.crate
+    dt = cr.ty(f.local_ty(d['l']))
+    if dt['k'] == 'adt' and dt['n'] in ('std::cell::RefMut', 'std::cell::Ref') and dt.get('a'):
+        inner = cr.ty(dt['a'][0])
+        if inner['k'] == 'adt' and inner['n'] in managed:
+            return (inner['n'], 'mut' if dt['n'].endswith('RefMut') else 'shr')
+    return None
+
+
+def _fresh_receiver(f, t, mg, cache):
+    """the cell borrowed here is an object this very function has just allocated (every origin of the receiver is the Root /
+    UniqueRoot returned by an allocating call): it cannot be the cell another guard in reach is holding"""
+    if not t['args']:
+        return False
+    pl = op_place(t['args'][0])
+    if pl is None:
+        return False
+    if f.path not in cache:
+        cache[f.path] = origins(f)
+    paths = cache[f.path].get(pl['l'], ())
+    if not paths:
+        return False
+    for q in paths:
+        root = q[0]
+        if root[0] != 'call':
+            return False
+        bt = f.blocks[root[1]]['t']
+        n = callee_name(bt)
+        dt = f.crate.ty(f.local_ty(bt['dst']['l']))
+        if not (n in mg and dt['k'] == 'adt' and dt['n'].rsplit('::', 1)[-1] in ('Root', 'UniqueRoot')):
+            return False
+    return True
+
+
+def _site_targets(w, f, t):
+    """workspace functions this call may enter; for a keyed operation of a std HashMap only the key type's Hash / Eq"""
+    tg, ext, _ = w.call_targets(f, t)
+    if ext and 'std::collections::HashMap' in ext and ext.rsplit('::', 1)[-1] in KEYED_MAP_OPS:
+        fr = t['f']
+        ra = fr.get('ra', fr.get('a', []))
+        if ra:
+            ks = f.crate.tstr(ra[0])
+            tg = {x for x in tg if ('for %s>' % ks) in x or ('<%s as ' % ks) in x}
+    return tg
+
+
+def p4(rep, w):
+    """RefCell's dynamic check panics (BorrowError / BorrowMutError) when a cell is borrowed mutably while any other borrow of
+    it is alive. Aliasing is not tracked: two borrows conflict when they are of the same payload type, at least one is mutable,
+    and the second can happen (call graph) while the guard of the first is alive -- except when one of the two cells is an
+    object allocated in the borrowing function itself."""
+    mg = c01.may_gc(w)
+    managed = {im['adt'] for im in c01.gc_impls(w) if im['k'] == 'adt'}
+    exc = {e['key']: e for e in c01.table('c02_reborrow_ok.json')}
+    r = rep.rule('P4', 'no heap cell can be borrowed again (same payload type, one side mutable) while a guard of it is alive', floor=100)
+    cache = {}
+    direct = defaultdict(set)
+    for f in w.fns.values():
+        for bi, t in f.calls():
+            g = _guard_of(f, t, managed)
+            if g and not _fresh_receiver(f, t, mg, cache):
+                direct[f.path].add(g)
+    edges = {}
+    for f in w.fns.values():
+        s = set()
+        for bi, t in f.calls(only_normal=False):
+            s |= _site_targets(w, f, t)
+        edges[f.path] = s
+    trans = {p: set(direct.get(p, ())) for p in w.fns}
+    changed = True
+    while changed:
+        changed = False
+        for a, bs in edges.items():
+            for b in bs:
+                if b in trans and not trans[b] <= trans[a]:
+                    trans[a] |= trans[b]
+                    changed = True
+    used = set()
+    for f in sorted(w.fns.values(), key=lambda x: x.path):
+        for bi, t in f.calls():
+            g = _guard_of(f, t, managed)
+            if not g or _fresh_receiver(f, t, mg, cache):
+                continue
+            live = guard_live_blocks(f, bi, t['dst']['l'])
+            confl = {}
+            for b in sorted(live):
+                t2 = f.blocks[b]['t']
+                if t2['t'] != 'call':
+                    continue
+                g2 = _guard_of(f, t2, managed)
+                cn = (callee_name(t2) or 'indirect call')
+                if g2 and g2[0] == g[0] and 'mut' in (g[1], g2[1]) and not _fresh_receiver(f, t2, mg, cache):
+                    confl.setdefault(strip_generics(cn).rsplit('::', 1)[-1], (b, 'this function borrows a %s again' % g[0].rsplit('::', 1)[-1]))
+                for x in sorted(_site_targets(w, f, t2)):
+                    for (T, k) in sorted(trans.get(x, ())):
+                        if T == g[0] and 'mut' in (g[1], k):
+                            confl.setdefault(strip_generics(cn).rsplit('::', 1)[-1], (b, '%s can borrow a %s (%s)' % (x, T.rsplit('::', 1)[-1], k)))
+            short = g[0].rsplit('::', 1)[-1]
+            if not confl:
+                r.ok('%s / %s<%s>' % (f.path, 'RefMut' if g[1] == 'mut' else 'Ref', short), sample=False)
+            for cn, (b, why) in sorted(confl.items()):
+                key = '%s / %s<%s> held across %s' % (f.path, 'RefMut' if g[1] == 'mut' else 'Ref', short, cn)
+                if ('P4 / ' + key) in exc:
+                    used.add('P4 / ' + key)
+                    r.ok(key + ' (listed: %s)' % exc['P4 / ' + key]['reason'][:80])
+                else:
+                    r.bad(key, 'a %s borrow of a heap cell is alive while %s: if it is the same object the interpreter panics '
+                          '(already borrowed)' % ('mutable' if g[1] == 'mut' else 'shared', why), f.loc(f.blocks[b]['t'].get('sp')))
+    for k in exc:
+        if k not in used:
+            r.note('table entry no longer needed: %s' % k)
 
 
 def diverges(f, b, depth=0):
